@@ -129,6 +129,18 @@ func zzSelfElemFrame(b *zzB) {
 //@   requires b != nil
 //@   modifies nothing                              -- false: writes an element of b.ps
 
+func zzSelfIfaceEref(bs []bitmapContainer) container {
+	if len(bs) == 0 {
+		return nil
+	}
+	var c container = &bs[0]
+	return c
+}
+
+//@ contract zzSelfIfaceEref
+//@   ensures res == nil                            -- false when len(bs) > 0 (an interface holding an interior pointer)
+//@   modifies nothing
+
 func zzMask(x uint32) uint32 { return x & 0xffff0000 }
 
 //@ contract zzMask
@@ -141,7 +153,7 @@ func zzSelfWrap(a uint16, b uint16) int { return int(a + b) }
 //@   ensures res == a + b                      -- false: uint16 addition wraps
 //@   modifies nothing
 '''
-ENGINE_KEYS = ['roaring.zzSelfFrame', 'roaring.zzSelfFresh', 'roaring.zzSelfByte', 'roaring.zzSelfWrap', 'roaring.zzSelfMkBad', 'roaring.zzSelfElemFrame']
+ENGINE_KEYS = ['roaring.zzSelfFrame', 'roaring.zzSelfFresh', 'roaring.zzSelfByte', 'roaring.zzSelfWrap', 'roaring.zzSelfMkBad', 'roaring.zzSelfElemFrame', 'roaring.zzSelfIfaceEref']
 ENGINE_OK = ['roaring.zzP.bump', 'roaring.zzB.bumpAll', 'roaring.zzMk', 'roaring.zzMask']
 
 FIX_COMMITS = [
